@@ -79,7 +79,34 @@ C[0-9][0-9])
 	"$BIN" -prop "$id" -tier "$tier" -evidence "$EVD/$id.json" -instr-report "$T/report.json" \
 		-known "$VERIF/known_findings.json" -replays "$RPD" "${extra[@]}"
 	;;
+sweep)
+	# ./run.sh sweep <tier> <Cnn>...  one build, the given checks in order,
+	# stops at the first that does not exit 0 (used by tools/ for judging
+	# seeded changes through VERIF_REPO; not registered in MANIFEST.json)
+	tier=${2:-quick}; shift 2
+	build plain; PLAIN=$BIN; export VERIF_PLAIN_BIN="$PLAIN"
+	build instr; INSTR=$BIN
+	EVD=${VERIF_EVIDENCE_DIR:-$T/ev}; RPD=${VERIF_REPLAY_DIR:-$T/rp}
+	mkdir -p "$EVD" "$RPD"
+	for id in "$@"; do
+		if [ "$id" = C13 ] && [ -z "${VERIF_RACE_BIN:-}" ]; then
+			(cd "$VERIF/mc" && go build -race -tags verif -overlay "$T/plain-overlay.json" -o "$T/mcrace" ./cmd/mcrace >"$T/race.log" 2>&1) || { cat "$T/race.log" >&2; die "race build failed"; }
+			export VERIF_RACE_BIN="$T/mcrace"
+		fi
+		B=$INSTR; [ "$(mode_of "$id")" = plain ] && B=$PLAIN
+		"$B" -prop "$id" -tier "$tier" -evidence "$EVD/$id.json" -instr-report "$T/report.json" \
+			-known "$VERIF/known_findings.json" -replays "$RPD" >"$T/out.$id" 2>&1
+		code=$?
+		if [ $code -ne 0 ]; then
+			echo "SWEEP first=$id exit=$code"
+			grep -A2 -m3 '^VIOLATION' "$T/out.$id" | cut -c1-400
+			grep -m2 'HARNESS' "$T/out.$id" | cut -c1-400
+			exit $code
+		fi
+	done
+	echo "SWEEP none"
+	;;
 *)
-	die "usage: run.sh <Cnn> <quick|thorough> | replay <file> | setup"
+	die "usage: run.sh <Cnn> <quick|thorough> | replay <file> | setup | sweep <tier> <Cnn>..."
 	;;
 esac
